@@ -587,6 +587,42 @@ Proof.
   eapply table_of_wf; eauto. eapply incl_wf_rows; eauto.
 Qed.
 
+(** ** number of blocks *)
+
+Lemma chunked_count ncols pk rem off l bs :
+  chunked ncols pk rem off l bs -> length bs = (length l + 254) / 255.
+Proof.
+  induction 1 as [off|off l Hne Hlen|off l1 l2 bs Hl1 Hne Hc IH].
+  - reflexivity.
+  - cbn [length]. unfold block_size in Hlen. destruct l as [|r l]; [contradiction|]. cbn [length] in *.
+    apply (Nat.div_unique _ 255 1 (length l)); lia.
+  - cbn [length]. rewrite IH, app_length, Hl1. unfold block_size.
+    replace (255 + length l2 + 254) with (1 * 255 + (length l2 + 254)) by lia.
+    rewrite Nat.div_add_l by lia. reflexivity.
+Qed.
+
+Theorem ingest_block_count H sort_rows arrive run_size columns pknames rows :
+  sort_ok (length columns) sort_rows -> any_arrival arrive ->
+  incl pknames columns -> NoDup pknames -> wf_rows (length columns) rows -> cells_in_limit rows ->
+  exists T tidx w,
+    ingest_table H sort_rows arrive run_size columns pknames rows = (IOk T tidx, w) /\
+    length (t_blocks T) = (length (rows_of T) + 254) / 255 /\
+    length (t_blockidx T) = length (t_blocks T) /\
+    (NoDup (map (dkey (length columns)
+                      (match key_indices columns pknames with Some pk => pk | None => [] end)) rows) ->
+     length (rows_of T) = length rows).
+Proof.
+  intros Hso Harr Hpk Hnd Hwf Hc.
+  destruct (ingest_table_char H sort_rows arrive run_size columns pknames rows Hso Harr Hpk Hnd Hwf Hc)
+    as (pk & bs & kept & w & Ek & Hwpk & Ei & Hw & Hch & K1 & K2 & K3).
+  exists (table_of H columns pk bs), (map b_pk bs), w. split; [exact Ei|].
+  assert (Erows : rows_of (table_of H columns pk bs) = kept).
+  { unfold rows_of, table_of. cbn. eapply chunked_rows; eauto. }
+  rewrite Erows. cbn [table_of t_blocks t_blockidx]. rewrite !map_length.
+  split; [eapply chunked_count; eauto|]. split; [reflexivity|].
+  rewrite Ek. intros Hu. symmetry. apply Permutation_length. eapply unique_keys_perm; eauto.
+Qed.
+
 (** ** row addressing *)
 
 Theorem row_addr i j : j < block_size -> row_to_block_and_offset (i * block_size + j) = (i, j).
